@@ -140,6 +140,10 @@ class StmtMixin:
         return out
 
     def s_If(self, st, n):
+        n_common = len(st.pc)
+        return self.merge_states(self._s_If(st, n), n_common)
+
+    def _s_If(self, st, n):
         out = []
         for s, c in self.eval(st, n.test):
             if s.exc is not None:
@@ -153,6 +157,111 @@ class StmtMixin:
                 self.refine(st_f, n.test, False)
                 out.extend(self.exec_block(st_f, n.orelse))
         return out
+
+    # ---------------------------------------------------------- state merging
+    def _log_sig(self, st):
+        sig = []
+        for e in st.log:
+            row = [e[0]]
+            for x in e[1:]:
+                if isinstance(x, tuple):
+                    row.append(tuple(getattr(y, 't', y).get_id() if hasattr(getattr(y, 't', y), 'get_id') else id(y) for y in x))
+                elif isinstance(x, Val) and hasattr(x.t, 'get_id') and not isinstance(x, (VBytes, VSeq, VTuple)):
+                    row.append(x.t.get_id())
+                else:
+                    row.append(id(x))
+            sig.append(tuple(row))
+        return tuple(sig)
+
+    def merge_states(self, states, n_common):
+        """Join the normally completed states after a branching statement when they executed the same events:
+        one state with if-then-else values instead of several paths.  n_common: length of the shared pc prefix."""
+        import os
+        if os.environ.get('PYVC_NO_MERGE') == '1' or len(states) < 2:
+            return states
+        groups, out = {}, []
+        for s in states:
+            if s.exc is not None:
+                out.append(s)
+                continue
+            key = (s.cur, tuple(sorted(s.frames.keys())), self._log_sig(s), s.depth,
+                   id(s.ghost.get('$head')), len(s.ghost.get('$first_iter', [])))
+            groups.setdefault(key, []).append(s)
+        for key, grp in groups.items():
+            acc = grp[0]
+            for other in grp[1:]:
+                m = self._merge2(acc, other, n_common)
+                if m is None:
+                    out.append(other)
+                else:
+                    acc = m
+            out.append(acc)
+        return out
+
+    def _merge2(self, a, b, n):
+        from .exec_call import ite_val
+        if len(a.pc) < n or len(b.pc) < n or any(not x.eq(y) for x, y in zip(a.pc[:n], b.pc[:n])):
+            return None
+        ca = [f for f in a.pc[n:] if f.get_id() not in a.fact_ids]
+        cb = [f for f in b.pc[n:] if f.get_id() not in b.fact_ids]
+        fa = [f for f in a.pc[n:] if f.get_id() in a.fact_ids]
+        fb = [f for f in b.pc[n:] if f.get_id() in b.fact_ids]
+        cond_a = z3.And(*ca) if ca else z3.BoolVal(True)
+        cond_b = z3.And(*cb) if cb else z3.BoolVal(True)
+        m = a.copy()
+        # environment
+        for fid in a.frames:
+            fa_, fb_ = a.frames[fid], b.frames[fid]
+            if set(fa_.keys()) != set(fb_.keys()):
+                return None
+            for k in fa_:
+                va, vb = fa_[k], fb_[k]
+                if va is vb or k.startswith('$') and va == vb:
+                    continue
+                if k.startswith('$'):
+                    if k == '$handling' or k == '$captured' or k == '$nonlocal':
+                        if va != vb:
+                            return None
+                        continue
+                    return None
+                if isinstance(va, Val) and isinstance(vb, Val):
+                    ta, tb = getattr(va, 't', None), getattr(vb, 't', None)
+                    if isinstance(va, (VFunc, VModule)) or isinstance(vb, (VFunc, VModule)):
+                        if va is vb or (ta is not None and tb is not None and hasattr(ta, 'eq') and ta.eq(tb) and type(va) is type(vb) and getattr(va, 'kind', None) == getattr(vb, 'kind', None) and getattr(va, 'kind', None) == 'opaque'):
+                            continue
+                        return None
+                    if ta is not None and tb is not None and type(va) is type(vb) and not isinstance(va, (VBytes, VSeq, VTuple, VBits)) and ta.eq(tb):
+                        continue
+                    try:
+                        m.frames[fid][k] = ite_val(cond_a, va, vb)
+                    except Exception:
+                        return None
+                else:
+                    return None
+        # heap
+        for key in set(a.heap) | set(b.heap):
+            ha, hb = a.heap.get(key), b.heap.get(key)
+            if ha is None or hb is None:
+                srt = (ha if ha is not None else hb).sort()
+                base = z3.Const('H0:' + ':'.join(str(k) for k in key), srt)
+                ha = base if ha is None else ha
+                hb = base if hb is None else hb
+            m.heap[key] = ha if ha.eq(hb) else z3.If(cond_a, ha, hb)
+        m.alloc = a.alloc if a.alloc.eq(b.alloc) else z3.If(cond_a, a.alloc, b.alloc)
+        # ghost
+        for k in set(a.ghost) | set(b.ghost):
+            if k == '$callables':
+                d = dict(b.ghost.get(k, {}))
+                d.update(a.ghost.get(k, {}))
+                m.ghost[k] = d
+            elif a.ghost.get(k) is not b.ghost.get(k) and a.ghost.get(k) != b.ghost.get(k):
+                return None
+        m.pc = list(a.pc[:n]) + [z3.Or(cond_a, cond_b)] + fa + fb
+        m.fact_ids = a.fact_ids | b.fact_ids
+        m.facts_seen = a.facts_seen & b.facts_seen
+        if self.written is not None:
+            pass
+        return m
 
     def refine(self, st, test, outcome):
         """after branching on `x is None` / `x is not None` / `x` / `not x` for a local x holding an
@@ -180,6 +289,10 @@ class StmtMixin:
             st.frames[fid][name] = VNone() if is_none else self.wf(st, v.some())
 
     def s_Match(self, st, n):
+        n_common = len(st.pc)
+        return self.merge_states(self._s_Match(st, n), n_common)
+
+    def _s_Match(self, st, n):
         out = []
         for s, subj in self.eval(st, n.subject):
             if s.exc is not None:
